@@ -48,7 +48,7 @@ structure Db where
 
 /-- error classes (closed enum shared with the harness) -/
 inductive Err where
-  | dupKey | noTable | nothingToCommit | conflict | dirty | badRef | exists_ | other
+  | dupKey | noTable | nothingToCommit | conflict | schemaConflict | dirty | badRef | exists_ | other
   deriving DecidableEq, Repr
 
 inductive Res where
@@ -323,7 +323,7 @@ def Db.checkoutTable (d : Db) (n : String) : Res × Db :=
 
 def errOfMerge : MergeErr → Res
   | .conflict => .err .conflict
-  | .schemaConflict => .err .conflict
+  | .schemaConflict => .err .schemaConflict   -- returned as an error: no merge state, nothing to abort
   | .unsupported => .skip "schema merge outside the model"
 
 def Db.mergeBranch (d : Db) (name : String) (noff : Bool) (msg : String) : Res × Db :=
@@ -427,13 +427,22 @@ model never reads them, only `--abort` is defined on such a state). -/
 def Db.startConflicted (d : Db) (kind : MergeKind) (midW midS : Root) : Db :=
   d.setWs { working := midW, staged := midS, merge := some ⟨d.ws.working, d.headId, kind⟩ }
 
-/-- `merge.AbortMerge` (+ `AbortRevert`'s head reset): working := pre-merge working, staged := HEAD -/
+/-- the working root `--abort` restores: `merge.AbortMerge` puts the recorded pre-merge working root
+back; `revert.AbortRevert` then overwrites working *and* staged with the pre-revert HEAD ("so the
+working set is clean") — which discards the unrelated unstaged changes a revert is allowed to start
+with (design/C31.md). -/
+def abortWorking (kind : MergeKind) (preWorking headRoot : Root) : Root :=
+  match kind with
+  | .cherry => preWorking
+  | .revert => headRoot
+
+/-- `merge.AbortMerge` (+ `AbortRevert`'s head and working-set reset) -/
 def Db.abortMerge (d : Db) : Res × Db :=
   match d.ws.merge with
   | none => (.err .other, d)
   | some ms =>
     let d1 := d.setHead ms.preHead
-    (.ok, d1.setWs ⟨ms.preWorking, d1.headRoot, none⟩)
+    (.ok, d1.setWs ⟨abortWorking ms.kind ms.preWorking d1.headRoot, d1.headRoot, none⟩)
 
 /-- cherry-pick with `@@dolt_allow_commit_conflicts = 1`, `--abort` after a data conflict -/
 def Db.cherryPickAbort (d : Db) (r : Ref) : Res × Db :=
